@@ -107,5 +107,5 @@ let () = register "nslex" (fun c ->
   | L [A "lex"; s] ->
     let b x = A (if x then "true" else "false") in
     let s = cs s in
-    L [b (Model.valid_address s); b (Model.valid_asset s); b (Model.lexer_asset s)]
+    L [b (Model.valid_address s); b (Model.valid_asset s); b (Model.lexer_asset s && Model.valid_asset s)]
   | _ -> failwith "bad lex case")
